@@ -32,7 +32,8 @@ Proof. exact TriviaProof.census_app. Qed.
 Print Assumptions C03_census_compositional.
 
 (* L0 - the whole-formatter model on a fragment of Lua 5.1 with comments at statement level (Fmt0.v), tied to the binary
-   byte for byte on every run: the comments of the output are exactly the comments of the program - those in front of
+   byte for byte on every run: the comments of the output are exactly the comments of the program - those inside its tables written over several
+   lines (on lines of their own, behind the comma of a field), those in front of
    its statements, behind them, and dangling at the end of its blocks - each once, in source order, with only trailing
    blanks trimmed *)
 From SV Require Fmt0 Fmt0Proof.
